@@ -181,6 +181,24 @@ def st_AugAssign(E, n, st):
     return out + res
 
 
+def degrade_local(E, st, name):
+    """replace the concrete dict/list bound to a local by an opaque object; it counts as created in this call ($fresh) unless it
+    is a module-level table"""
+    v = st.env[name]
+    if isinstance(v, VObj):
+        return v
+    gname = getattr(v, "global_name", None)
+    if gname is not None:
+        o_ = VObj(z3.Const("global_" + gname.replace(".", "_"), PyObj))
+    else:
+        o_ = VObj(z3.Const(fresh_name("local_" + name), PyObj))
+        st.ghost["$fresh"] = z3.Store(st.ghost["$fresh"], o_.t, z3.BoolVal(True))
+    for nm, x in list(st.env.items()):
+        if x is v:
+            st.env[nm] = o_
+    return o_
+
+
 def _as_load(t):
     import copy
     t2 = copy.deepcopy(t)
@@ -201,6 +219,8 @@ def assign(E, tgt, v, st, out, node):
     if isinstance(tgt, (ast.Tuple, ast.List)):
         if isinstance(v, (VTuple, VCList)):
             items = v.items
+        elif isinstance(v, VObj) and getattr(E.cur, "opaque_iterables", False):
+            items = [VObj(z3.Function("py_unpack_%d" % i_, PyObj, PyObj)(v.t)) for i_ in range(len(tgt.elts))]
         else:
             raise OutOfSubset("unpacking of %r" % (v,))
         if len(items) != len(tgt.elts):
@@ -276,7 +296,24 @@ def assign(E, tgt, v, st, out, node):
                 E.store(s1, recv.ref, recv.mapping[k], v)
                 res.append(s1)
             elif isinstance(recv, VDict):
-                k = _concrete_key(key)
+                gname = getattr(recv, "global_name", None)
+                if gname is not None:
+                    # a store into a module-level table: process-wide state is updated
+                    if s1.ghost.get("$mutated") is None:
+                        raise OutOfSubset("store into the module-level table %s (no $mutated ghost declared)" % gname)
+                    s1.ghost["$mutated"] = z3.Store(s1.ghost["$mutated"], z3.Const("global_" + gname.replace(".", "_"), PyObj), z3.BoolVal(True))
+                    res.append(s1)
+                    continue
+                try:
+                    k = _concrete_key(key)
+                except OutOfSubset:
+                    if s1.ghost.get("$fresh") is None or not isinstance(tgt.value, ast.Name):
+                        raise
+                    # a dict built in this call receives a symbolic key: from here on it is an opaque object created here
+                    o_ = degrade_local(E, s1, tgt.value.id)
+                    s1.ghost["$mutated"] = z3.Store(s1.ghost["$mutated"], o_.t, z3.BoolVal(True))
+                    res.append(s1)
+                    continue
                 recv.d[k] = v
                 res.append(s1)
             elif isinstance(recv, VRef):
@@ -816,6 +853,11 @@ def _iter_parts(itv):
 
 
 def for_over(E, n, itv, st, out):
+    if st.ghost.get("$fresh") is not None:
+        # dicts/lists built in this call and updated inside the loop become opaque objects (created here) before the loop is cut
+        for nm_ in sorted(mutated_receivers(n.body)):
+            if isinstance(st.env.get(nm_), (VDict, VCList)):
+                degrade_local(E, st, nm_)
     ip = _iter_parts(itv)
     start = None
     seq = itv
